@@ -32,7 +32,7 @@ EPOCH = datetime.date(1970, 1, 1)
 
 PROVED = ["element_at", "try_element_at", "Column.getItem", "array_min", "array_max", "array_position", "factorial", "rint",
           "dayofweek", "overlay", "arrays_overlap", "array_union", "array_remove", "nanvl", "sequence", "date_add",
-          "date_sub", "dateadd", "levenshtein", "unix_millis", "slice"]
+          "date_sub", "dateadd", "levenshtein", "unix_millis", "slice", "array_append", "concat", "left", "right", "trunc", "date_trunc", "substr"]
 EMULATIONS_NOT_MODELLED = {
     "expm1": "EXP(x) - 1: a real-analytic identity; the floating-point loss near 0 is observed by T3 only",
     "log1p": "LN(x + 1): same",
@@ -248,9 +248,33 @@ def model_case(call, k, row, lookup):
         if d == "differs":
             return None
         return f"(ILevenshtein {'None' if d is None else f'(Some {zlit(d)})'} {zlit(vals[2])})", "int"
+    def olist(x, conv=lambda y: y):
+        return "None" if x is None else f"(Some {zl(conv(x))})"
+
+    def uniform(xs, pred):
+        return all(x is None or pred(x) for x in xs)
+    if fn == "array_union" and uniform(vals, ints):
+        return f"(IArrayUnionN {olist(vals[0])} {olist(vals[1])})", "list"
+    if fn == "array_append" and uniform(vals[:1], ints) and isinstance(vals[1], int):
+        return f"(IArrayAppend {olist(vals[0])} {zlit(vals[1])})", "list"
+    if fn == "concat" and (uniform(vals, lambda x: isinstance(x, str)) or uniform(vals, ints)) and not all(v is None for v in vals) or \
+            (fn == "concat" and all(v is None for v in vals) and all("c" in a for a in args)):
+        is_str = any(isinstance(v, str) for v in vals) or (all(v is None for v in vals) and all(a.get("c") in ("s", "t", "w") for a in args))
+        parts = listlit([olist(v, codes) if (is_str and v is not None) else olist(v) for v in vals])
+        return f"(IConcat {parts})", ("str" if is_str else "list")
+    if fn == "overlay" and uniform(vals[:2], lambda x: isinstance(x, str)) and (is_null_row or all(isinstance(v, int) for v in vals[2:])):
+        if is_null_row:
+            pos, ln = (vals[2] if isinstance(vals[2], int) else 1), (vals[3] if len(vals) == 4 and isinstance(vals[3], int) else 0)
+        else:
+            pos, ln = vals[2], (vals[3] if len(vals) == 4 else len(vals[1]))
+        return f"(IOverlayN {olist(vals[0], codes)} {olist(vals[1], codes)} {zlit(pos)} {zlit(ln)})", "str"
     if is_null_row or any(v is None for v in vals):
         return None
-    if fn == "slice" and ints(vals[0]) and vals[1] >= 1 and vals[2] >= 0:      # the models are stated for 1 <= start only
+    if fn == "substr" and isinstance(vals[0], str) and all(isinstance(v, int) for v in vals[1:]) and vals[1] >= 0 and (len(vals) == 2 or vals[2] >= 0):
+        return f"(ISubstr {zl(codes(vals[0]))} {zlit(vals[1])} {zlit(vals[2] if len(vals) == 3 else len(vals[0]) + 1)})", "str"
+    if fn in ("left", "right") and isinstance(vals[0], str) and isinstance(vals[1], int):
+        return f"({'ILeft' if fn == 'left' else 'IRight'} {zl(codes(vals[0]))} {zlit(vals[1])})", "str"
+    if fn == "slice" and ints(vals[0]) and vals[1] != 0 and vals[2] >= 0:      # start 0 is an error in Spark
         return f"(ISlice {zl(vals[0])} {zlit(vals[1])} {zlit(vals[2])})", "list"
     if fn in ("array_min", "array_max") and ints(vals[0]):
         return f"({'IArrayMin' if fn == 'array_min' else 'IArrayMax'} {zl(vals[0])})", "int"
@@ -261,13 +285,8 @@ def model_case(call, k, row, lookup):
         return f"(IRint {zlit(fr.numerator)} {zlit(fr.denominator)})", "int"
     if fn == "dayofweek" and isinstance(vals[0], datetime.date) and not isinstance(vals[0], datetime.datetime):
         return f"(IDayOfWeek {zlit((vals[0] - EPOCH).days)})", "int"
-    if fn == "overlay":
-        ln = vals[3] if len(vals) == 4 else len(vals[1])
-        return f"(IOverlay {zl(codes(vals[0]))} {zl(codes(vals[1]))} {zlit(vals[2])} {zlit(ln)})", "str"
     if fn == "arrays_overlap" and ints(vals[0]) and ints(vals[1]):
         return f"(IArraysOverlap {zl(vals[0])} {zl(vals[1])})", "bool"
-    if fn == "array_union" and ints(vals[0]) and ints(vals[1]):
-        return f"(IArrayUnion {zl(vals[0])} {zl(vals[1])})", "list"
     if fn == "array_remove" and ints(vals[0]) and isinstance(vals[1], int):
         return "(IArrayRemove " + listlit([f"(Some {zlit(x)})" for x in vals[0]]) + f" {zlit(vals[1])})", "olist"
     if fn == "sequence":
@@ -281,7 +300,7 @@ def model_case(call, k, row, lookup):
 
 
 HEADER = """From Coq Require Import ZArith List String.
-From SF Require Import C17.Emul C17.EmulCheck.
+From SF Require Import C17.Emul C17.Emul2 C17.EmulCheck.
 From Gen Require Import C17Facts.
 Import ListNotations.
 Open Scope Z_scope.
@@ -330,7 +349,7 @@ def run(ctx: core.Ctx):
         ctx.gen("C17Facts", open(core.VERIF + "/translate/c17_facts_pinned.v").read())
     # ---- proofs --------------------------------------------------------------------------------------------------
     proved = ctx.prove([ctx.build + "/gen/C17Facts.v"] + ([core.COQ + "/props/C17.v"] if t1_ok else []),
-                       dep_theories=["C17/Emul.v", "C17/EmulCheck.v"])
+                       dep_theories=["C17/Emul.v", "C17/Emul2.v", "C17/EmulCheck.v"])
     ctx.log(f"T1 {'ok' if t1_ok else 'FAILED'} ({len(ctx.t1_facts)} facts), proofs {'ok' if proved else 'FAILED'}")
 
     # ---- T3a: all recorded calls on DuckDB ----------------------------------------------------------------------------
@@ -473,13 +492,19 @@ def run(ctx: core.Ctx):
             f"spark!=spec {len(spec_bad)}")
 
     flag_names = ["slice", "element_at", "try_element_at", "rint", "sequence", "unix_millis", "array_position(NULL)",
-                  "nanvl(NULL)", "levenshtein(NULL)"]
+                  "nanvl(NULL)", "levenshtein(NULL)", "slice(negative start)", "factorial(outside 0..20)", "array_append(NULL)",
+                  "array_union(NULL)", "overlay(NULL)", "concat(NULL)", "left/right(negative length)", "trunc/date_trunc unit spellings",
+                  "substr(position 0)"]
     verdicts = {}
     if proved:
-        outp = ctx.coq_eval("From Coq Require Import List Bool.\nFrom SF Require Import C17.Emul C17.EmulCheck.\nFrom Gen Require Import C17Facts.\n"
+        outp = ctx.coq_eval("From Coq Require Import List Bool.\nFrom SF Require Import C17.Emul C17.Emul2 C17.EmulCheck.\nFrom Gen Require Import C17Facts.\n"
                             "Import ListNotations.\nDefinition flags := [slice_cfg_ok c17_slice; element_at_cfg_exact c17_element_at; "
                             "element_at_cfg_exact c17_try_element_at; rint_cfg_exact c17_rint; seq_cfg_exact c17_seq_default; "
-                            "millis_cfg_exact c17_unix_millis; pos_cfg_exact c17_pos; nanvl_cfg_exact c17_nanvl; lev_cfg_exact c17_lev].",
+                            "millis_cfg_exact c17_unix_millis; pos_cfg_exact c17_pos; nanvl_cfg_exact c17_nanvl; lev_cfg_exact c17_lev; "
+                            "slice_rebase_exact c17_slice_rebase && slice_cfg_ok c17_slice; fact_guard_exact c17_fact_guard; c17_append_guard; "
+                            "c17_union_guard; match c17_overlay_glue with GluePipes => true | _ => false end; "
+                            "match c17_concat_glue with GluePipes => true | _ => false end; "
+                            "floor_exact c17_left_floor && floor_exact c17_right_floor; units_table_ok c17_trunc_units; remap_exact c17_substr_remap].",
                             "flags")
         import re as _re
         vals = _re.findall(r"\b(true|false)\b", outp.split("=", 1)[1] if "=" in outp else "")
@@ -579,17 +604,22 @@ def thorough_model_cases(ctx, duck):
     specs.append(("element_at", lambda r: f"(IElementAt {zl(r[1])} (IAdd (ICol {zlit(r[3])}) (ILit 1)))", "int", F.element_at("a", F.col("p") + 1)))
     for s, n in ((1, 1), (1, 3), (2, 2), (3, 0), (4, 5)):
         specs.append(("slice", lambda r, s=s, n=n: f"(ISlice {zl(r[1])} {zlit(s)} {zlit(n)})", "list", F.slice("a", s, n)))
+    for st_, n in ((-1, 1), (-2, 2), (-3, 5), (-9, 2)):
+        specs.append(("slice", lambda r, st_=st_, n=n: f"(ISlice {zl(r[1])} {zlit(st_)} {zlit(n)})", "list", F.slice("a", st_, n)))
+    for n in (-2, 0, 1, 3, 20):
+        specs.append(("left", lambda r, n=n: f"(ILeft {zl(codes(r[7]))} {zlit(n)})", "str", F.left("s", F.lit(n))))
+        specs.append(("right", lambda r, n=n: f"(IRight {zl(codes(r[7]))} {zlit(n)})", "str", F.right("s", F.lit(n))))
     specs.append(("array_min", lambda r: f"(IArrayMin {zl(r[1])})", "int", F.array_min("a")))
     specs.append(("array_max", lambda r: f"(IArrayMax {zl(r[1])})", "int", F.array_max("a")))
     for v in (0, 3, 9):
         specs.append(("array_position", lambda r, v=v: f"(IArrayPosition (Some {zl(r[1])}) {zlit(v)})", "int", F.array_position("a", v)))
         specs.append(("array_remove", lambda r, v=v: "(IArrayRemove " + listlit([f"(Some {zlit(x)})" for x in r[1]]) + f" {zlit(v)})", "olist", F.array_remove("a", v)))
     specs.append(("arrays_overlap", lambda r: f"(IArraysOverlap {zl(r[1])} {zl(r[2])})", "bool", F.arrays_overlap("a", "b")))
-    specs.append(("array_union", lambda r: f"(IArrayUnion {zl(r[1])} {zl(r[2])})", "list", F.array_union("a", "b")))
+    specs.append(("array_union", lambda r: f"(IArrayUnionN (Some {zl(r[1])}) (Some {zl(r[2])}))", "list", F.array_union("a", "b")))
     specs.append(("factorial", lambda r: f"(IFactorial {zlit(r[5])})", "int", F.factorial("k")))
     specs.append(("rint", lambda r: f"(IRint {zlit(Fraction(r[6]).numerator)} {zlit(Fraction(r[6]).denominator)})", "int", F.rint("x")))
     for pos, ln in ((1, 0), (2, 3), (4, 1), (9, 2)):
-        specs.append(("overlay", lambda r, pos=pos, ln=ln: f"(IOverlay {zl(codes(r[7]))} {zl(codes(r[8]))} {zlit(pos)} {zlit(ln)})", "str",
+        specs.append(("overlay", lambda r, pos=pos, ln=ln: f"(IOverlayN (Some {zl(codes(r[7]))}) (Some {zl(codes(r[8]))}) {zlit(pos)} {zlit(ln)})", "str",
                       F.overlay("s", "t", pos, ln)))
     specs.append(("sequence", lambda r: f"(ISequence {zlit(r[4])} {zlit(r[5])} None)", "list", F.sequence("q", "k")))
     specs.append(("sequence", lambda r: f"(ISequence {zlit(r[4])} 30 (Some {zlit(r[3])}))", "list", F.sequence("q", F.lit(30), "p")))
